@@ -31,8 +31,28 @@ type fg interface {
 	Grad(grad, x []float64)
 }
 
+// a catalogue function that panics outside its domain (HelicalValley at x[0] = 0) is turned into one
+// returning NaN there
 func cat(name string, dim int, p fg) objective {
-	return objective{name, dim, p.Func, p.Grad}
+	return objective{name, dim,
+		func(x []float64) (v float64) {
+			defer func() {
+				if recover() != nil {
+					v = math.NaN()
+				}
+			}()
+			return p.Func(x)
+		},
+		func(g, x []float64) {
+			defer func() {
+				if recover() != nil {
+					for i := range g {
+						g[i] = math.NaN()
+					}
+				}
+			}()
+			p.Grad(g, x)
+		}}
 }
 
 // planted strictly convex quadratic 1/2 (x-x*)^T A (x-x*), A integer tridiagonal and strictly
@@ -115,7 +135,18 @@ func linesearchers() []lsSpec {
 		bt(1e-4, 0.5), bt(0.25, 0.125), bt(0.5, 0.75),
 		bi(0.9), bi(0.5), bi(0.1),
 		mt(0, 0.9, 0, 1e20), mt(1e-4, 0.9, 0, 1e20), mt(1e-4, 0.1, 0, 1e20), mt(0.25, 0.5, 0, 1e20),
+		mt(1e-4, 0.9, 0, 0.75), mt(1e-4, 0.5, 0.05, 1e20),
 	}
+}
+
+// group is the part of the recording a Linesearcher configuration is written to (one trace file per group):
+// its kind, except that MoreThuente with a MinimumStep / MaximumStep that can exclude the initial step of a
+// method is kept apart
+func (l lsSpec) group() string {
+	if l.cfg.Kind == "morethuente" && (l.cfg.MaxStep < 1e20 || l.cfg.MinStep > 0) {
+		return "morethuente-bounds"
+	}
+	return l.cfg.Kind
 }
 
 type methodSpec struct {
@@ -492,7 +523,7 @@ func record(out *core.Out, args []string, seed int64, sum *core.Summary) error {
 	for _, sc := range scenarios(mode, seed, per) {
 		// the scenario list is a function of (mode, seed, per); kind= selects a part of it, class= the runs
 		// in which the objective fed (class nonfinF) or did not feed (class finite) a non-finite value
-		if kind != "" && sc.ls.cfg.Kind != kind {
+		if kind != "" && sc.ls.group() != kind {
 			continue
 		}
 		var buf []event
